@@ -77,7 +77,7 @@ type mpStep struct {
 
 func runC06(c *Ctx) {
 	r := c.R
-	r.SetRule("random multipart histories (8-18 steps: initiate / upload-part / re-upload / complete / abort / get) over keys {mp/k1, mp/k2} with up to 3 simultaneous uploads per key, part numbers from {1,2,3,7,100,9999,10000}, part bodies of 0..70000 bytes, part lists that are ascending subsets, permutations, contain unknown numbers, stale or garbage ETags, quoted and unquoted ETags, repeated numbers or are empty; after every step GET of both objects and ListParts of every pending upload are compared with MultipartModel; on all seven backend configurations; plus completes with a valid list that the backend refuses (fs: key below / above another key; mem, bolt, fs: bucket deleted and re-created), which must store nothing, leave ListParts unchanged and succeed with the full body when repeated after the obstacle is removed; UploadPartCopy requests, which must be refused or yield a part with the source's bytes; distinct = (backend, sequence of (op, part-list kind, outcome))")
+	r.SetRule("random multipart histories (8-18 steps: initiate / upload-part / re-upload / complete / abort / get) over keys {mp/k1, mp/k2} with up to 3 simultaneous uploads per key, part numbers from {1,2,3,7,100,9999,10000}, part bodies of 0..70000 bytes, part lists that are ascending subsets, permutations, contain unknown numbers, stale or garbage ETags, quoted and unquoted ETags, repeated numbers or are empty; after every step GET of both objects and ListParts of every pending upload are compared with MultipartModel; on all seven backend configurations; plus completes with a valid list that the backend refuses (fs: key below / above another key; mem, bolt, fs: bucket deleted and re-created), which must store nothing, leave ListParts unchanged and succeed with the full body when repeated after the obstacle is removed; UploadPartCopy requests, which must be refused or yield a part with the source's bytes; part / abort / complete requests with an empty uploadId, which must not touch the object; distinct = (backend, sequence of (op, part-list kind, outcome))")
 	nh := r.Pick(3000, 40000)
 	kinds := drv.AllKinds
 	r.Set("backends", kinds)
@@ -354,6 +354,7 @@ func runC06(c *Ctx) {
 	})
 	runC06BackendRefusal(c, r.Pick(60, 600))
 	runC06PartCopy(c)
+	runC06EmptyUploadID(c)
 	r.Require("completes_ok", 200)
 	r.Require("completes_order", 100)
 	r.Require("completes_invalid", 100)
